@@ -3,6 +3,7 @@ package main
 import (
 	"encoding/json"
 	"fmt"
+	"math"
 	"math/rand"
 	"reflect"
 	"strings"
@@ -213,6 +214,29 @@ func typedTargeted(repU *Report, wU *CaseWriter, r *rand.Rand) {
 			pair{at, mm(sb.Token{Kind: sb.KindBytes, Value: k}, tokI(l))},
 			pair{at, []sb.Token{tokK(sb.KindArray), tokK(sb.KindMap), {Kind: sb.KindBytes, Value: k}, tokK(sb.KindMap), {Kind: sb.KindBytes, Value: k}, tokS("v"), tokK(sb.KindMapEnd), tokK(sb.KindMapEnd), tokK(sb.KindArrayEnd)}})
 	}
+	// map keys that are NaN: as the NaN kind, and as float tokens whose PAYLOAD is a NaN (a marshaller never emits
+	// those, bytes from elsewhere can carry them); a schema-less map rejects every one of them
+	nanKeys := []sb.Token{tokK(sb.KindNaN)}
+	for _, b := range []uint32{0x7fc00000, 0xffc00001, 0x7fffffff} /* quiet NaNs only: a signalling float32 NaN is quieted by the float64 conversions of reflect */ {
+		nanKeys = append(nanKeys, sb.Token{Kind: sb.KindFloat32, Value: math.Float32frombits(b)})
+	}
+	for _, b := range []uint64{0x7ff8000000000001, 0xfff8000000000001, 0x7fffffffffffffff} {
+		nanKeys = append(nanKeys, sb.Token{Kind: sb.KindFloat64, Value: math.Float64frombits(b)})
+	}
+	nNaNAny := 0
+	for _, k := range nanKeys {
+		pairs = append(pairs,
+			pair{at, mm(k, tokI(1))},
+			pair{at, mm(tokI(0), tokI(0), k, tokI(1))},
+			pair{at, []sb.Token{tokK(sb.KindArray), tokK(sb.KindMap), k, tokS("v"), tokK(sb.KindMapEnd), tokK(sb.KindArrayEnd)}},
+			pair{at, obj(tokS("F"), tokK(sb.KindMap), k, tokS("v"), tokK(sb.KindMapEnd))})
+		nNaNAny += 4
+		pairs = append(pairs,
+			pair{reflect.TypeOf(map[float32]int{}), mm(k, tokI(1))},
+			pair{reflect.TypeOf(map[float64]int{}), mm(k, tokI(1))},
+			pair{reflect.TypeOf(map[any]int{}), mm(k, tokI(1))})
+	}
+	nanFrom := len(pairs) - 7*len(nanKeys)
 	// the same field named twice: each occurrence is decoded on its own (a pointer field gets a fresh pointee)
 	type pAB struct{ A, B int }
 	type holdP struct {
@@ -230,7 +254,8 @@ func typedTargeted(repU *Report, wU *CaseWriter, r *rand.Rand) {
 		pair{hp, obj(tokS("P"), tokK(sb.KindObject), tokS("A"), tokI(1), tokK(sb.KindObjectEnd), tokS("P"), tokK(sb.KindNil))},
 		pair{reflect.TypeOf([]*pAB{}), []sb.Token{tokK(sb.KindArray), tokK(sb.KindObject), tokS("A"), tokI(1), tokK(sb.KindObjectEnd), tokK(sb.KindNil), tokK(sb.KindObject), tokS("B"), tokI(2), tokK(sb.KindObjectEnd), tokK(sb.KindArrayEnd)}},
 	)
-	for _, p := range pairs {
+	_ = nNaNAny
+	for pi, p := range pairs {
 		if usesEmbeddedOrRecursive(p.t) {
 			continue
 		}
@@ -253,6 +278,9 @@ func typedTargeted(repU *Report, wU *CaseWriter, r *rand.Rand) {
 		}
 		wU.add(fmt.Sprintf("UnmarshalCase %s %s %s %s %s %s %s", coqOpts(false, false, false), reg, tyS, "(zero "+tyS+")", coqTokens(p.ts), floatTable(p.ts), uobs(back, eU)), desc, true)
 		tapOracle(repU, p.t, p.ts, back, eU, desc)
+		if p.t == anyType && pi >= nanFrom && pi < nanFrom+7*len(nanKeys) && eU == nil {
+			repU.violate("C11", "any-accepts-nan-key", fmt.Sprintf("a schema-less map with a NaN key was accepted and decoded to %v: the value cannot be marshalled again", safeFormat(back)), desc)
+		}
 		if p.t == anyType {
 			// C11 on the canonical streams among the hand-made ones (in the domain, keys ascending): must be
 			// accepted and lossless; the others are decided by the model (rejection with the stated error)
